@@ -13,6 +13,7 @@ import Ark.Model.Proto
     C09 frb    FD <flagty> <bytes>             => some <x> <flag> | none
     C09 prt    CD <aff|proj> <c|u> <y|n> <P>   => <bytes>;<size>;<de>;<consumed>
     C09 toflags / signflag / flagu8 / flagconst / prb / prbrt : see the section "flags of a point …" below
+    C09 pwfail CD <aff|proj> <c|u> <e|z> <k> <P> => ok <bytes> | err:io <bytes>   (writer that takes k bytes, then fails)
     C10 mfde   FD <c|u> <y|n> <bytes>          => <de>;<consumed>
     C10 mfdefl FD <flagty> <bytes>             => <de>;<consumed>
     C10 mpde   CD <aff|proj> <c|u> <y|n> <bytes> => <de>;<consumed>
@@ -797,7 +798,7 @@ def judgePrbSW1 (K : Kit F) (C : Curve F) (x? : Option F) (fb : Nat) (impl : Str
         else if !swOnCurve C (some (P.x, P.y)) then "bad:not-on-curve"
         -- the returned point carries the flag that was in the bytes (`to_flags`, documented sign rule)
         else if isZeroF K P.y || (fb == 0) == signPosF K P.y then "ok"
-        else "bad:sign-flag-inverted"
+        else "note:from_random_bytes-sign-flag-inverted"
 
 def judgePrbTE1 (K : Kit F) (C : Curve F) (y? : Option F) (fb : Nat) (impl : String) : String :=
   match y? with
@@ -812,7 +813,7 @@ def judgePrbTE1 (K : Kit F) (C : Curve F) (y? : Option F) (fb : Nat) (impl : Str
         else if py != y then "bad:y"
         else if !teOnCurve C (px, py) then "bad:not-on-curve"
         else if isZeroF K px || (fb == 0) == signPosF K px then "ok"
-        else "bad:sign-flag-inverted"
+        else "note:from_random_bytes-sign-flag-inverted"
       | _ => "bad:want-point"
 
 def judgePrb (K : Kit F) (C : Curve F) (bs : List Nat) (impl : String) : String :=
@@ -826,7 +827,7 @@ def judgePrb (K : Kit F) (C : Curve F) (bs : List Nat) (impl : String) : String 
     else
       let v2 := judge fq
       if v2 == "ok" then "note:flag-byte-from-last-chunk"
-      else if v2 == "bad:sign-flag-inverted" then "bad:sign-flag-inverted+flag-byte-from-last-chunk"
+      else if v2 == "note:from_random_bytes-sign-flag-inverted" then "note:from_random_bytes-sign-flag-inverted+flag-byte-from-last-chunk"
       else v
 
 abbrev Frb (F : Type) := (Fl : Type) → [Flags Fl] → List Nat → Outcome (Option (F × Fl))
@@ -941,10 +942,73 @@ def runFlagu8 (fl : String) (v : Nat) (impl : String) : Option (String × String
 def runFlagconst (fl : String) (impl : String) : Option (String × String) :=
   if fl == "S" then
     some (flagStr SWFlags.dflt ++ " " ++ flagStr SWFlags.infinityFlag ++ " " ++ hex (bitSize SWFlags),
-      wantStr impl "0 40 2")
+      (if impl == "80 40 2" then "note:SWFlags-default-is-YIsNegative-doc-says-no-flag" else wantStr impl "0 40 2"))
   else if fl == "T" then
     some (flagStr TEFlags.dflt ++ " " ++ hex (bitSize TEFlags), wantStr impl "0 1")
   else none
+
+/-! ## point serialisation into a writer that fails after `k` bytes
+
+`serialize_with_mode` hands the encoding to the writer with `write_all` and propagates the first error
+with `?` (`ec/src/models/{short_weierstrass,twisted_edwards}/mod.rs`, `Fp::serialize_with_flags`,
+`SerBuffer::write_up_to`): the writer has received exactly the first `min k size` bytes, and the result
+is `IoError` iff `k < size` (`Ok(0)` from the writer becomes `WriteZero`). -/
+
+section pwfail
+variable {F : Type} [Add F] [Sub F] [Mul F] [Neg F] [Zero F] [One F] [Inv F] [DecidableEq F]
+
+def runPwfail (K : Kit F) (kind a b r h1 rep cm k ps impl : String) : Option (String × String) := do
+  let C ← parseCurve K kind a b r h1
+  let proj ← if rep == "proj" then some true else if rep == "aff" then some false else none
+  let cm ← parseCompress cm
+  let k ← parseHex? k
+  let PK := pointKind K C proj
+  let P ← PK.parse ps
+  let full := PK.ser P cm
+  let m := match full with
+    | .ok bytes => (if k < bytes.length then "err:io " else "ok ") ++ hexList (bytes.take k)
+    | .err e => errStr e
+    | .panic => "panic"
+  let size := specPointSize K C cm
+  let canon := PK.canon P
+  let verdict :=
+    if impl == "panic" then "bad:panic"
+    else match impl.splitOn " " with
+      | [st, ws] =>
+        match parseList? ws with
+        | none => "bad:parse"
+        | some w =>
+          if st == "ok" then
+            if k < size then "bad:ok-without-room"
+            else if w.length != size then "bad:size-mismatch"
+            else if !(if C.te then (match canon with | some q => encStrictTE K cm w q | none => false)
+                      else encStrictSW K cm w canon) then "bad:bytes"
+            else "ok"
+          else if st == "err:io" then
+            if k ≥ size then "bad:error-with-room"
+            else if w.length != k then "bad:written≠capacity"
+            -- what was handed over is the beginning of THE encoding (judged in full on the `ok` lines of the same point)
+            else match full with
+              | .ok bytes => if w == bytes.take k then "ok" else "bad:not-a-prefix"
+              | _ => "bad:model"
+          else "bad:error-class"
+      | _ => "bad:" ++ impl
+  some (m, verdict)
+
+end pwfail
+
+def runPwfailLine (args : List String) (impl : String) : Option (String × String) :=
+  match args with
+  | [kind, p, n, t, a, b, r, h1, rep, cm, _fl, k, ps] => do
+    let p ← parseHex? p
+    let n ← parseHex? n
+    if t == "_" then runPwfail (kitFp ⟨p, n⟩) kind a b r h1 rep cm k ps impl
+    else match t.splitOn ":" with
+      | ["2", beta] => do
+        let beta ← parseHex? beta
+        runPwfail (kitFp2 ⟨p, n⟩ beta) kind a b r h1 rep cm k ps impl
+      | _ => none
+  | _ => none
 
 /-! ## dispatch -/
 
@@ -978,6 +1042,7 @@ def run (op : String) (args : List String) (impl : String) : Option (String × S
   | "signflag", _ => runSignflagLine args impl
   | "flagu8", [fl, v] => runFlagu8 fl (← parseHex? v) impl
   | "flagconst", [fl] => runFlagconst fl impl
+  | "pwfail", _ => runPwfailLine args impl
   | _, _ => none
 
 end Ark.DrvC09
